@@ -34,12 +34,16 @@ def render(e, pow_sym="^"):
         if op == "id":
             return t[1], 9
         p = _PREC[op]
+        if op == "sub" and t[1][0] == "num" and list(t[1][1]) == [0, 1] and t[2][0] == "pow":
+            # 0 - x^n is written with a unary minus, "-x^n": the minus applies to the power (templates "negsq")
+            b, pb = go(t[2])
+            return "-" + b, _PREC["add"]
         a, pa = go(t[1])
         b, pb = go(t[2])
         if pa < p or (op == "pow" and pa <= p):
             a = "(" + a + ")"
-        if pb < p or (pb == p and op in ("sub", "div", "pow")):
-            b = "(" + b + ")"
+        if pb < p or (pb == p and op in ("sub", "div")):
+            b = "(" + b + ")"         # (a power in the exponent needs no parentheses: powers associate to the right)
         return a + (pow_sym if op == "pow" else _SYM[op]) + b, p
     return go(e)[0]
 
